@@ -332,7 +332,8 @@ def draw_world_params(rng, tier='quick', **force):
     wp = {
         'seed': rng.randrange(2 ** 31),
         'depth': rng.choice([1, 2, 2, 3, 3, 4]),
-        'n_leaves': rng.choice([1, 2, 3, 4, 5, 6, 8, 10]),
+        # mostly small; now and then a wide taxonomy (a parent with dozens of children)
+        'n_leaves': rng.choice([1, 2, 3, 4, 5, 6, 8, 10, 2, 4, 36, 48]),
         'n_genes': rng.choice([6, 8, 12, 16, 24, 40]),
         'n_query': rng.choice([1, 2, 3, 5, 8, 12, 20, 30]),
         'odd_names': rng.random() < 0.25,
